@@ -10,7 +10,7 @@ CONFIG = {
         "V.C16.gen_default_port", "V.C16.gen_srv_services", "V.C16.gen_wellknown_limits", "V.C16.gen_control_networks",
         # resolution
         "V.C16.resolve_eq_spec", "V.C16.invalid_refused", "V.C16.invalid_iff_spec", "V.C16.invalid_delegate_refused",
-        "V.C16.delegated_no_second_wellknown", "V.C16.targets_nonempty_or_error", "V.C16.roundtrip_uses_only_targets",
+        "V.C16.delegated_no_second_wellknown", "V.C16.targets_nonempty_or_error", "V.C16.roundtrip_uses_only_targets", "V.C16.roundtrip_attempts_are_spec_results",
         # well-known
         "V.C16.wellknown_honoured_iff", "V.C16.wellknown_honoured_only_if", "V.C16.cache_lifetime_prefers_max_age",
         # network policy
@@ -21,9 +21,17 @@ CONFIG = {
             "transport error/delegation to any generated name) x a second-level document that must never be fetched x scripted SRV answers "
             "for _matrix-fed and _matrix of the name and of the delegate (NXDOMAIN, no data, SERVFAIL, lame referral, 1 record, 2-4 records "
             "sent out of priority order, root target), through in-process stubs of http.DefaultTransport and net.DefaultResolver; "
-            "roundtrip: a fresh fclient.Client (WithWellKnownSRVLookups) sends two requests to 11 names x delegations x SRV answers whose ports "
-            "select a real TLS server that answers, one that fails every handshake, or a closed port: the trace of (server, SNI, Host header) "
-            "seen by the servers, the outcome and the number of well-known lookups per request (resolution cache) are compared; "
+            "roundtrip: a fresh fclient.Client (WithWellKnownSRVLookups) sends two requests to 13 names x delegations x SRV answers. Every host name "
+            "has its own loopback address (fake DNS) and four servers listen on all of them, selected by the port: one answers, one refuses "
+            "every TLS handshake, one closes the connection at once, one (flaky) drops the first K connections of a request after reading the "
+            "request head and answers later ones; other ports are closed. Each server records every connection attempt as (server, NAME "
+            "dialled, SNI, Host header); the trace, the outcome and the number of well-known lookups per request (resolution cache) are "
+            "compared with the model. Systematically: names reached through 1-3 SRV records and through a well-known delegation (to a name "
+            "with SRV records, to a name with a port, to an address literal) whose first-pass targets ALL fail once / all but one / one more "
+            "/ for good (K = n-1, n, n+1, 2n), so that the retry pass of RoundTrip runs. roundtrip_props (spec stream): every recorded "
+            "attempt of both requests, first pass and retry pass, must be a result of the SPECIFICATION's resolution (Resolve.Spec.resolve) "
+            "of the ORIGINAL server name -- same dialled host and port, the SNI and the Host header the specification assigns to it; "
+            "re-using the targets that just failed (what the code does) is allowed, the property only says where connections may go; "
             "wellknown: real HTTPS server (Content-Length / chunked) and scripted transport x status x sizes 51199..51202, 60000, 100 KiB x "
             "padding inside/after/before the document x 60 documents (m.server missing/empty/null/non-string/case-folded/duplicated, non-objects, "
             "malformed) x 50 Cache-Control values x 22 Expires values x 22 Content-Length values; "
